@@ -36,3 +36,16 @@ func VerifFDConnected(res distsys.ArchetypeResource) bool {
 	fd, ok := res.(*SingleFailureDetector)
 	return ok && fd.client != nil
 }
+
+// VerifFDClosed reports whether Close has been called on the detector (its poll loop has been told to exit).
+func VerifFDClosed(res distsys.ArchetypeResource) bool {
+	fd, ok := res.(*SingleFailureDetector)
+	if !ok {
+		return false
+	}
+	if !fd.execLock.TryRLock() {
+		return true // Close holds the lock while it waits for the poll loop to exit
+	}
+	defer fd.execLock.RUnlock()
+	return fd.closing
+}
